@@ -196,6 +196,18 @@ def main():
             k = known.match(kf, pid, cx, obs)
             if k is not None: knowns.append((k, cx, path))
             else: violations.append((spec['id'], cx, path, why))
+    # known findings met inside jobs (filtered per path so that other violations are still reported): confirm natively
+    for spec, r in zip(specs, results):
+        for cx in r.get('known', []):
+            cx = dict(cx); cx['property'] = pid; cx['job'] = spec['id']
+            kid = cx['known']
+            k = next((x for x in kf if x['id'] == kid), None)
+            if k is None or bins is None: continue
+            cx2 = dict(cx); cx2.pop('props', None); cx2['props'] = [pid]
+            path, obs = run_replay(bins, cx2); replays += 1
+            ok, why = confirm.confirm(cx2, obs)
+            if ok: knowns.append((k, cx, path))
+            else: nonrepro.append((spec['id'], cx, 'listed known finding %s did not reproduce natively: %s' % (kid, why)))
     # 3. exit code and lines
     req_bad = [(s, r) for s, r in zip(specs, results) if s.get('required', True) and r['status'] in ('inconclusive', 'skipped')]
     opt_bad = [(s, r) for s, r in zip(specs, results) if not s.get('required', True) and r['status'] in ('inconclusive', 'skipped')]
